@@ -679,7 +679,7 @@ func TestC20(t *testing.T) {
 	hx.Check[c20Case]{
 		Property: "C20", Part: "chains",
 		Rule:  "generated supply chains of 1-3 steps carried out through the built binary (run / record start+stop / run -x per step; --use-dsse, -c certificate, --lstrip-paths with absolute paths, metadata directory separate or inside the project with exclude patterns, *.tmp excludes), layout written unsigned by the harness and signed with `sign` by 1-2 keys (with and without -o), then at most one tampering (product, extra product, link field, layout field, wrong key, missing or renamed link, a supplied key that never signed) before `verify`; differential against in-process InTotoVerify; plus `sign --verify`, `key id`, `key layout` and `match-products` (perturbed directory, relative and absolute+strip) against independent expectations; non-trivial = >=2 steps or a tampering; distinct by case JSON",
-		Cases: hx.Pick(120, 3000),
+		Cases: hx.Pick(120, 15000),
 		Gen:   c20Gen, Run: c20Run,
 	}.Execute(t)
 }
